@@ -28,7 +28,8 @@ def exhaustive(tier):
 
 
 def model_runs(tier):
-    return []
+    from harness import algo
+    return algo.leads_to_final(tier)
 
 
 def hashseeds(tier):
